@@ -88,11 +88,12 @@ Definition src_items (s : source) : list Z :=
   | SChan l => l
   | SScript evs => script_den evs
   | SScriptNC evs => script_den evs
+  | SError _ => []
   end.
 
 (* sources whose Next never looks at the context *)
 Definition src_nc (s : source) : bool :=
-  match s with SScriptNC _ => true | _ => false end.
+  match s with SScriptNC _ | SError _ => true | _ => false end.
 
 (* ---- denotation of pipelines ---- *)
 Fixpoint den_z (p : pz) : list Z :=
@@ -170,6 +171,7 @@ Definition script_ok (evs : list sevent) : Prop := no_fatal evs /\ script_nopani
 Definition src_ok (ae : bool) (s : source) : Prop :=
   match s with
   | SScript evs | SScriptNC evs => script_ok evs /\ (ae = false -> no_transient evs)
+  | SError _ => False                  (* stream.Error is nothing but an unretryable fault *)
   | _ => True
   end.
 Fixpoint okz (ae : bool) (p : pz) : Prop :=
@@ -305,10 +307,11 @@ Definition src_scrub (k : list sevent) (s : source) : source :=
   match s with
   | SScript evs => SScript (cut_with k evs)
   | SScriptNC evs => SScriptNC (cut_with k evs)
+  | SError _ => SScriptNC k            (* the fault is all there is: the source continues with k *)
   | _ => s
   end.
 Definition src_codes (s : source) : list Z :=
-  match s with SScript evs | SScriptNC evs => fatal_codes evs | _ => [] end.
+  match s with SScript evs | SScriptNC evs => fatal_codes evs | SError e => [e] | _ => [] end.
 
 Fixpoint pz_scrub (k : list sevent) (p : pz) : pz :=
   match p with
